@@ -19,7 +19,30 @@ func genC14(t *rapid.T) Case {
 
 func TestC14(t *testing.T) { ev.Check(t, "C14", "seq", genC14, ExecC14) }
 
+// genC17Fill: one root, several directories filled to the limit, then reopen/write rounds - the
+// state "more than one full directory is registered at once" only exists right after an open.
+func genC17Fill(t *rapid.T) Case {
+	c := Case{Prof: "c17", Roots: 1, MaxDir: rapid.SampledFrom([]uint64{0, 100, 101}).Draw(t, "limit"), Keys: []string{"a", "b", "c"},
+		RootStyle: rapid.SampledFrom([]int{0, 0, 1}).Draw(t, "rootStyle")}
+	for n := rapid.IntRange(2, 4).Draw(t, "bursts"); n > 0; n-- {
+		c.Ops = append(c.Ops, Op{K: "burst", N: rapid.IntRange(95, 130).Draw(t, "n")})
+	}
+	for n := rapid.IntRange(1, 4).Draw(t, "rounds"); n > 0; n-- {
+		c.Ops = append(c.Ops, Op{K: "reopen"})
+		for m := rapid.IntRange(1, 4).Draw(t, "writes"); m > 0; m-- {
+			c.Ops = append(c.Ops, Op{K: "set", Key: rapid.IntRange(0, 2).Draw(t, "key"), Len: 1})
+		}
+		if rapid.IntRange(0, 3).Draw(t, "del") == 0 {
+			c.Ops = append(c.Ops, Op{K: "delburst", Key: rapid.IntRange(0, 3).Draw(t, "which")})
+		}
+	}
+	return c
+}
+
 func genC17(t *rapid.T) Case {
+	if rapid.IntRange(0, 2).Draw(t, "fill") == 0 {
+		return genC17Fill(t)
+	}
 	c := Case{Prof: "c17", Roots: rapid.IntRange(1, 3).Draw(t, "roots"), MaxDir: rapid.SampledFrom([]uint64{0, 1, 99, 100, 101, 150}).Draw(t, "limit"),
 		RootStyle: rapid.SampledFrom([]int{0, 0, 1, 2, 3}).Draw(t, "rootStyle")}
 	c.Keys = GenKeys(t, 1, 3, false)
